@@ -107,7 +107,24 @@ def gen_cases(tier, seed):
                 pts.append([float(v) for v in P + u * np.sqrt(tt / (a + b))])
             cases.append({"shells": shells, "points": pts, "charges": [1.0, -1.5, 2.0],
                           "classes": ["boys-window", "boysT:%d" % T, "l:%d,%d" % (la, lb), "nsh:2", "nq:3", "q:generic"], "cost": 80})
-    cases += bases.dup_variants("C03", seed, tier, cases, 11)  # one shell listed twice as the same object
+    # many charges in one call (a grid of charges / a large cluster): the array for charge n must not depend on how
+    # many charges share the call; generalized contractions, spherical and mixed types
+    for i, N in enumerate((300, 1100, 2600) if tier == "quick" else (300, 520, 1100, 2600, 4200, 8000, 12000)):
+        rng = bases.rng_for("C03", seed, tier, "many", N)
+        ls = [[1, 2], [2, 0, 1], [1, 2]][i % 3]
+        tp = [["p", "p"], ["p", "c", "p"], ["c", "p"]][i % 3]
+        shells, classes = bases.rand_basis(rng, ls, types=tp, scale=1.0, emax_fn=lambda l: 20.0, Kmax=3, Mmax=2, distinct_M=False)
+        for s_ in shells:
+            if len(s_["e"]) < 2:
+                s_["e"] = [s_["e"][0], s_["e"][0] * 3.7]
+                s_["k"] = [list(s_["k"][0]), [0.3 + 0.1 * j for j in range(len(s_["k"][0]))]]
+            if len(s_["k"][0]) < 2 and s_["l"] >= 1:
+                s_["k"] = [[row[0], 0.4 - 0.9 * j] for j, row in enumerate(s_["k"])]
+        pts = rng.normal(size=(N, 3)) * 2.5
+        q = rng.normal(size=N)
+        cases.append({"kind": "many", "shells": shells, "points": [[float(v) for v in p_] for p_ in pts], "charges": [float(v) for v in q],
+                      "classes": classes + ["many-charges", "nq:%d" % N, "nsh:%d" % len(ls)], "cost": 4000 + 3 * N})
+    cases += bases.dup_variants("C03", seed, tier, [c for c in cases if c.get("kind") != "many"], 11)  # one shell listed twice as the same object
     return cases
 
 
@@ -124,6 +141,8 @@ def run_case(case):
     rkind = cm.REPS[nk % 11 % 6]  # representation / dtype of the array arguments; float32 is outside the documented domain (dtype int/float)
     if rkind == "int" and np.abs(pts).max() > 1e6:
         rkind = "c"
+    if case.get("kind") == "many":
+        return run_many(case, shells, pts, q, rs)
     pts = cm.rep_values(pts, rkind)  # integer-valued / float32-representable coordinates; charges stay fractional
     ref = gto.point_charge(rs, pts, q)  # (n, n, N)
     dg = np.abs(np.einsum("iin->in", ref))
@@ -149,6 +168,54 @@ def run_case(case):
     near = any(np.linalg.norm(pts - np.array(s["c"]), axis=1).min() < 1.0 for s in shells)
     nontrivial = near and (len(set(ls)) > 1 or len(ls) == 1)
     return {"evals": evals, "nontrivial": bool(nontrivial), "classes": case.get("classes", []) + ["rep:" + rkind], "errs": errs, "violations": viols}
+
+
+def run_many(case, shells, pts, q, rs):
+    """many charges in one call: (1) the reference on a subset of the charges (first, last, around 256/1000/4096 and
+    150 random ones); (2) trace relation: the same charges handed over in slices of 97 must give the same arrays."""
+    from gbasis.integrals.nuclear_electron_attraction import nuclear_electron_attraction_integral
+    from gbasis.integrals.point_charge import point_charge_integral
+
+    viols, errs = [], {}
+    N = len(q)
+    rng = np.random.default_rng(N)
+    idx = sorted(set(list(range(8)) + list(range(N - 8, N)) + [k for c in (256, 1000, 1024, 4096) for k in range(c - 3, c + 3) if k < N] + [int(v) for v in rng.integers(0, N, size=150)]))
+    ref = gto.point_charge(rs, pts[idx], q[idx])
+    dg = np.abs(np.einsum("iin->in", ref))
+    scale = np.sqrt(dg[:, None, :] * dg[None, :, :])
+    V = cm.call(point_charge_integral, cm.build(shells), pts.copy(), q.copy())
+    evals = 1
+    if isinstance(V, cm.Raised) or not isinstance(V, np.ndarray) or V.shape != (ref.shape[0], ref.shape[1], N):
+        viols.append(cm.unexpected(V, "point_charge_integral(%d charges)" % N) if isinstance(V, cm.Raised) else cm.shape_violation(V, (ref.shape[0], ref.shape[1], N), "point_charge_integral(%d charges)" % N))
+        return {"evals": evals, "nontrivial": True, "classes": case["classes"], "errs": errs, "violations": viols}
+    cm.compare(V[:, :, idx], ref, TOL, "point_charge_integral(%d charges), sampled charges" % N, "point_charge", viols, errs, scale=scale, ls=cm.ls_of(shells))
+    parts = []
+    for k in range(0, N, 97):
+        o = cm.call(point_charge_integral, cm.build(shells), pts[k:k + 97].copy(), q[k:k + 97].copy())
+        evals += 1
+        if isinstance(o, cm.Raised):
+            viols.append(cm.unexpected(o, "point_charge_integral(slice of 97 charges)"))
+            return {"evals": evals, "nontrivial": True, "classes": case["classes"], "errs": errs, "violations": viols}
+        parts.append(o)
+    W = np.concatenate(parts, axis=2)
+    dgl = np.abs(np.einsum("iin->in", W))
+    sl = np.sqrt(dgl[:, None, :] * dgl[None, :, :]) + 1e-300
+    e, at = cm.maxerr(V, W, sl)
+    errs["many_vs_slices"] = e
+    evals += 1
+    if not e <= 1e-11:
+        viols.append(cm.viol("point_charge_integral with %d charges in one call differs from the same charges handed over in slices of 97 by %.3e of the scale at %s" % (N, e, at),
+                             "many_vs_slices", e, 1e-11))
+    Nu = cm.call(nuclear_electron_attraction_integral, cm.build(shells), pts.copy(), q.copy())
+    evals += 1
+    if isinstance(Nu, cm.Raised):
+        viols.append(cm.unexpected(Nu, "nuclear_electron_attraction_integral(%d nuclei)" % N))
+    else:
+        e, at = cm.maxerr(Nu, W.sum(axis=2), np.abs(W).sum(axis=2) + 1e-300)
+        errs["nuclear_vs_sum"] = e
+        if not e <= 1e-11:
+            viols.append(cm.viol("nuclear attraction matrix of %d nuclei differs from the sum of the per-charge arrays (slices) by %.3e (relative to sum |terms|)" % (N, e), "nuclear_vs_sum", e, 1e-11))
+    return {"evals": evals, "nontrivial": True, "classes": case["classes"] + ["rep:c"], "errs": errs, "violations": viols}
 
 
 def summarize(cases, results, counts, lists, tier):
